@@ -1,5 +1,6 @@
 // scenarios for cocls::suspend_point (C06)
 #pragma once
+#include <string>
 #include <vf/team.h>
 #include <cocls/suspend_point.h>
 #include <cocls/future.h>
@@ -203,6 +204,17 @@ inline void sp_apply(sp_world &W, const sp_op &op) {
                 if (u.size() != 0 || v.size() != n) W.err = "move construction of a typed suspend point lost or duplicated handles";
                 *A << std::move(v); // give the handles back (the model is unchanged)
                 if (A->size() != n) W.err = "handles lost on the way back from the typed suspend point";
+            }
+            else if (op.k % 4 == 1) {
+                // a value whose move empties the source: the point keeps the value its producer supplied however often and however it is read
+                // (conversion, conversion again, through a const reference, after the point was moved)
+                const std::string text = "typed value " + std::to_string(val) + " - long enough to be kept in a heap block of its own";
+                cocls::suspend_point<std::string> ts(std::move(t), text);
+                std::string a = ts, b = ts;
+                const cocls::suspend_point<std::string> &cts = ts; std::string c = cts;
+                cocls::suspend_point<std::string> moved(std::move(ts)); std::string d = moved;
+                if (a != text || b != text || c != text || d != text) W.err = "typed suspend point no longer returns the value its producer supplied when it is read more than once (read 1..4: " + std::to_string(a.size()) + "/" + std::to_string(b.size()) + "/" + std::to_string(c.size()) + "/" + std::to_string(d.size()) + " chars of " + std::to_string(text.size()) + ")";
+                if (W.coro_mode) W.queued[h] = true; else W.expect[h]++; // 'moved' is destroyed at scope end: flushes
             }
             else { if (W.coro_mode) W.queued[h] = true; else W.expect[h]++; } // destroyed at scope end: flushes
         }
